@@ -1817,7 +1817,8 @@ class _GroupElem(ABC):
         dim = self.__dim
         connect = self._global_to_local_nodes[self.connect]
 
-        tol = 1e-12
+        # the round-off of a point lying on an edge grows with the coordinates
+        tol = 1e-12 * max(1.0, np.abs(self.__coord[connect[elem]]).max())
 
         if dim == 0:
             coord = self.coord[connect[elem, 0]]
@@ -2230,7 +2231,8 @@ class _GroupElem(ABC):
         else:
             xn, yn, zn = coordinates_n.T
             xe, ye, ze = coordElem.T
-            tol = 1e-12
+            # the round-off of a point lying on an edge grows with the coordinates
+            tol = 1e-12 * max(1.0, np.abs(coordElem).max())
 
             idx = np.where(
                 (xn >= np.min(xe) - tol)
